@@ -317,8 +317,12 @@ func workerMain() {
 	var lim syscall.Rlimit
 	lim.Cur, lim.Max = 6<<30, 6<<30
 	syscall.Setrlimit(syscall.RLIMIT_AS, &lim)
-	base, _ := os.MkdirTemp("", "c28w")
-	defer os.RemoveAll(base)
+	// the parent creates (and, also after killing this process, removes) the scratch directory
+	base := os.Getenv("C28_WORKER_DIR")
+	if base == "" {
+		base, _ = os.MkdirTemp("", "c28w")
+		defer os.RemoveAll(base)
+	}
 	in := bufio.NewReaderSize(os.Stdin, 1<<20)
 	out := bufio.NewWriter(os.Stdout)
 	for n := 0; ; n++ {
@@ -343,6 +347,7 @@ func workerMain() {
 // ---------------------------------------------------------------- parent side of the protocol
 
 type worker struct {
+	dir    string
 	cmd    *exec.Cmd
 	in     io.WriteCloser
 	out    *bufio.Reader
@@ -352,10 +357,11 @@ type worker struct {
 func startWorker() *worker {
 	cmd := exec.Command(os.Args[0], "worker")
 	cmd.SysProcAttr = &syscall.SysProcAttr{Setpgid: true}
-	cmd.Env = append(os.Environ(), "GOTRACEBACK=all")
+	dir, _ := os.MkdirTemp("", "c28w")
+	cmd.Env = append(os.Environ(), "GOTRACEBACK=all", "C28_WORKER_DIR="+dir)
 	in, _ := cmd.StdinPipe()
 	outp, _ := cmd.StdoutPipe()
-	w := &worker{cmd: cmd, in: in, out: bufio.NewReaderSize(outp, 1<<20), stderr: &capBuf{}}
+	w := &worker{dir: dir, cmd: cmd, in: in, out: bufio.NewReaderSize(outp, 1<<20), stderr: &capBuf{}}
 	cmd.Stderr = w.stderr
 	if err := cmd.Start(); err != nil {
 		panic(err)
@@ -369,9 +375,7 @@ func (w *worker) kill() {
 		w.cmd.Process.Kill()
 	}
 	w.cmd.Wait()
-	// the worker's scratch directory
-	matches, _ := filepath.Glob(filepath.Join(os.TempDir(), "c28w*"))
-	_ = matches
+	os.RemoveAll(w.dir)
 }
 
 type pool struct {
@@ -433,6 +437,7 @@ func (p *pool) close() {
 		case <-time.After(3 * time.Second):
 			p.w.kill()
 		}
+		os.RemoveAll(p.w.dir)
 		p.w = nil
 	}
 }
